@@ -25,6 +25,8 @@ THEOREMS = [
     dict(name="Snow.C11.fo_grid1D", clause="1D: with the code's dt = 0.4 dz^2/alpha_max the cooling-stage Fourier number is 0.4 alpha/alpha_max", strength="full"),
     dict(name="Snow.C11.fo_bounds_grid1D", clause="1D: 0 <= Fo <= 1/2 whenever 0 <= alpha <= 1.25 alpha_max (discharges the CFL hypothesis from the constants)", strength="full"),
     dict(name="Snow.C11.cn_Tnuc_close_1D_code", clause="1D: cn - stepDrop < T_nuc_min <= cn with the CFL hypothesis discharged", strength="full"),
+    dict(name="Snow.C11.coolStep2D_min_ge_general", clause="2D, every configuration: one repaired cooling step keeps the coldest point >= min(old coldest point, shelf temperature, coldest top ghost value T_top + q_e dz/k_eff)", strength="full"),
+    dict(name="Snow.C11.cn_Tnuc_close_2D_general", clause="2D, every configuration incl. VISF (repaired sweep, C07 stability hypotheses): cnTemp >= T_nuc_min >= min(coldest point before the step, shelf temperature of the step, coldest top ghost value with the evaporative flux q_e explicit) - like cn_Tnuc_close_2D a maximum-principle bound whose shelf term does not scale with dt", strength="partial"),
 ]
 TRUSTED = [
     "Lean 4.33 kernel; axioms per theorem listed under coverage.axioms",
@@ -48,7 +50,7 @@ RULE = ("boundary inputs in every dimensionality (cnTemp = 0 and 0.0; solution.T
 EXPLANATION = ("Lean theorems about the controlled-nucleation branch of the cooling loop + differential check against "
                "Snowing.run(); the trigger condition re-evaluated on the real recorded fields")
 PARALLEL = True
-LEVEL_TEXT = ("Lean 4 theorems about executable models of _run_0D and _run_1D (exact real arithmetic), tied to /repo by a differential check. Proved in full: 0D and 1D (repaired test T_k.min() <= cnTemp + 273.15): controlled nucleation is triggered at the first step at which the product / its coldest point has reached cnTemp and not before; the reported nucleation temperature lies within one step's cooling below cnTemp (0D: exact step formula; 1D: discrete minimum principle under 0 <= Fo <= 1/2, bound = the ghost-point increments). Refuted for the unrepaired code: the test T_k.any() <= cnTemp + 273.15 is true for every field and every cnTemp >= -272.15, so nucleation fires at step 0 (general theorem + concrete witness); replayed on the real code (F4, fixes/F4.diff). 2D (SnowModel/Snowing2D.lean): trigger at the first step whose coldest point reaches cnTemp; T_nuc_min between min(previous coldest point, shelf temperature) and cnTemp for the shelf and jacket configurations under the stability hypotheses of C07 - PARTIAL: this maximum-principle bound does not scale with dt, the dt-dependent 'one step's cooling' bound is proved for 0D and 1D only (1D with the CFL hypothesis discharged from the code's dt). PARTIAL: for the 2D VISF configuration only the trigger theorem is proved (the one-step bound would need the evaporative ghost increment, which the 1D theorem has); real 2D runs, VISF included, are compared with the model and evaluated by the predicates.")
+LEVEL_TEXT = ("Lean 4 theorems about executable models of _run_0D and _run_1D (exact real arithmetic), tied to /repo by a differential check. Proved in full: 0D and 1D (repaired test T_k.min() <= cnTemp + 273.15): controlled nucleation is triggered at the first step at which the product / its coldest point has reached cnTemp and not before; the reported nucleation temperature lies within one step's cooling below cnTemp (0D: exact step formula; 1D: discrete minimum principle under 0 <= Fo <= 1/2, bound = the ghost-point increments). Refuted for the unrepaired code: the test T_k.any() <= cnTemp + 273.15 is true for every field and every cnTemp >= -272.15, so nucleation fires at step 0 (general theorem + concrete witness); replayed on the real code (F4, fixes/F4.diff). 2D (SnowModel/Snowing2D.lean): trigger at the first step whose coldest point reaches cnTemp; T_nuc_min between min(previous coldest point, shelf temperature) and cnTemp for the shelf and jacket configurations under the stability hypotheses of C07 - PARTIAL: this maximum-principle bound does not scale with dt, the dt-dependent 'one step's cooling' bound is proved for 0D and 1D only (1D with the CFL hypothesis discharged from the code's dt). the bound is proved for EVERY 2D configuration including VISF (cn_Tnuc_close_2D_general: the evaporative flux q_e enters through the top ghost value T_top + q_e dz/k_eff); real 2D runs, VISF included, are compared with the model and evaluated by the predicates.")
 
 
 def run_impl(case):
